@@ -334,7 +334,13 @@ func runC11(c *Ctx) {
 					poD := append([]mon.Access(nil), g.ioA.Log...)
 					pF, hF, xF, _ := stepOnW(&g.memB, &g.ioB, swapIdx(pi), fd[:ilen], ioSeed, 0, true)
 					lim0++
+					ranFirst := len(lD) > 0 && lD[0].Kind == 'R' && lD[0].Addr == pre.PC ||
+						len(g.memB.Log) > 0 && g.memB.Log[0].Kind == 'R' && g.memB.Log[0].Addr == pre.PC
 					switch {
+					case ranFirst:
+						// the Step began with the program's own instruction (requests sampled at the end
+						// of an instruction: C06's subject); the two sides then run different programs
+						lim0--
 					case (xD == nil) != (xF == nil):
 						bad = "only one form panics when supplied by a mode-0 device"
 					case xD != nil:
